@@ -506,8 +506,42 @@ fn effectful_index_cases(ctx: &Ctx) -> Vec<(Case, bool)> {
     out
 }
 
+// "After `xs[i] = v` only position i changed" also when xs came out of a
+// concatenation or a range read: every way of producing r from s and t
+// (including empty operands) x every write into r, s or t afterwards; all
+// three sequences are printed before and after. Oracle: the reference run.
+fn written_results_cases(ctx: &Ctx) -> Vec<(Case, bool)> {
+    let seqs = ["[]", "[1]", "[1, 2, 3]"];
+    let seqt = ["[]", "[4]", "[4, 5]"];
+    let makes = [
+        ("r := s + t", 0), ("r := s\nr += t", 0), ("r := (s + t) + []", 0), ("r := [] + (s + t)", 0), ("r := s[:] + t[:]", 0), ("fn cat(a, b) {\n    out := []\n    for [_, c] in [a, b] {\n        out += c\n    }\n    return out\n}\nr := cat(s, t)", 0),
+        ("r := s[:]", 1), ("r := s[0:]", 1), ("r := s[:1] + s[1:]", 2), ("r := s + []", 1), ("r := [] + s", 1), ("r := t + s[0:0]", 3),
+    ];
+    let mut srcs = vec![];
+    for sl in seqs {
+        for tl in seqt {
+            for (mk, which) in makes {
+                if which == 2 && sl == "[]" { continue; }
+                let show = "print([r, s, t])\n";
+                let n_s = sl.matches(|c: char| c.is_ascii_digit()).count();
+                let n_t = tl.matches(|c: char| c.is_ascii_digit()).count();
+                let n_r = match which { 0 => n_s + n_t, 1 | 2 => n_s, _ => n_t };
+                let mut writes: Vec<String> = (0..n_r).map(|i| format!("r[{i}] = 99\n")).collect();
+                if n_r >= 2 { writes.push("r[0:2] = \"xy\"\n".to_string()); }
+                if n_r >= 1 { writes.push(format!("r[{}:] = [[7]]\n", n_r - 1)); }
+                if n_s >= 1 { writes.push("s[0] = 77\n".to_string()); writes.push("s[:1] = [55]\n".to_string()); }
+                if n_t >= 1 { writes.push(format!("t[{}] = 66\n", n_t - 1)); }
+                for w in writes {
+                    srcs.push((format!("s := {sl}\nt := {tl}\n{mk}\n{show}{w}{show}print([r === s, r === t])\n"), format!("`{}` from s = {sl}, t = {tl}; then `{}`", mk.lines().last().unwrap_or(mk), w.trim_end())));
+                }
+            }
+        }
+    }
+    source_cases(ctx, "C11", "written_result", "write into a concatenation / range-read result or into its operands: nothing else changes", srcs)
+}
+
 pub fn run(ctx: &Ctx) {
-    ctx.set_rule("every list of length 0..N (distinct ints; one family with container elements) and every string from a pool incl. 2/3/4-byte characters x every index in [-2, len+2] x every bound pair in ([-2, len+2] + omitted)^2, reads, xs[i] = v, xs[a:b] = ys with |ys| in {b-a-1, b-a, b-a+1} as list and string, concatenation of all pairs, all 7 non-integer kinds as index / bound, lists of bound methods through every building operation, random histories (2..11 reads, element and range writes from literals / range expressions / strings / own slices, appends) on lists of 0..300 elements followed on a Vec; oracle: the sequence laws written out in the harness. Non-trivial = an index or bound on an edge (0, len-1, len, a = b, omitted, -1, len+1) or a multi-byte string; distinct = distinct source texts");
+    ctx.set_rule("every list of length 0..N (distinct ints; one family with container elements) and every string from a pool incl. 2/3/4-byte characters x every index in [-2, len+2] x every bound pair in ([-2, len+2] + omitted)^2, reads, xs[i] = v, xs[a:b] = ys with |ys| in {b-a-1, b-a, b-a+1} as list and string, concatenation of all pairs, all 7 non-integer kinds as index / bound, lists of bound methods through every building operation, random histories (2..11 reads, element and range writes from literals / range expressions / strings / own slices, appends) on lists of 0..300 elements followed on a Vec; 12 ways of producing r from s and t by concatenation / range read (incl. empty operands, an accumulator loop) x 3 x 3 operand lengths x every element / range write into r, s or t afterwards, all three printed before and after (reference run); oracle: the sequence laws written out in the harness. Non-trivial = an index or bound on an edge (0, len-1, len, a = b, omitted, -1, len+1) or a multi-byte string; distinct = distinct source texts");
     ctx.replay_corpus(None);
     let maxlen = if ctx.tier == Tier::Quick { 5 } else { 8 };
     let mut lists = vec![];
@@ -551,6 +585,7 @@ pub fn run(ctx: &Ctx) {
     judge_snippets(ctx, "sequence", &ok, 60);
     ctx.judge_all(bad, Via::Cli, None);
     ctx.judge_all(effectful_index_cases(ctx), Via::Cli, None);
+    ctx.judge_all(written_results_cases(ctx), Via::Cli, None);
     let n = ctx.n(20_000, 4_000_000);
     let via = if ctx.tier == Tier::Quick { Via::Cli } else { Via::Fast };
     ctx.proptest_tapes("histories", n, 200, via, None, |t| history_case(t, ctx));
